@@ -1271,7 +1271,7 @@ func TestDecode(t *testing.T) {
 	o := &tgen.Opts{Small: true, NoWideIDs: evid.KnownActive(classWideIDs)}
 	// While the allocation / short-read defects are listed every few cases cost
 	// a worker restart or a stall; on a tree without them a case takes ~0.2 ms.
-	n := 5000
+	n := 4000
 	if evid.KnownActive(classAlloc) || evid.KnownActive(classShortRead) {
 		n = 500
 	}
